@@ -184,3 +184,99 @@ package limit
 //@   ensures[C20] sampled_once: ncalls("(*core.CommonMetricSampler).Sample") == 1 && callrecv("(*core.CommonMetricSampler).Sample", 0) == l.commonSampler && callarg("(*core.CommonMetricSampler).Sample", 0, 0) == rtt && callarg("(*core.CommonMetricSampler).Sample", 0, 1) == inFlight && callarg("(*core.CommonMetricSampler).Sample", 0, 2) == didDrop
 //@   safety[C04]
 //@   owns[C17]
+
+// ---------------------------------------------------------------------------------------------
+// Interface contract for a wrapped limit (windowed / traced wrappers, DefaultLimiter).
+// est is the abstract estimate; listeners is the abstract list of registered change listeners.
+//@ ghost core.Limit.est int
+//@ func core.Limit.EstimatedLimit
+//@   ensures value: result == this.est
+//@   assigns nothing
+//@ func core.Limit.OnSample params startTime, rtt, inFlight, didDrop
+//@   requires sample: 0 <= rtt && 0 <= inFlight
+//@   assigns this.est
+//@ func core.Limit.NotifyOnChange params consumer
+//@   assigns nothing
+
+// ---------------------------------------------------------------------------------------------
+// Gradient
+//@ ghost GradientLimit.cap float64
+//@ type GradientLimit
+//@   guarded mu: estimatedLimit, resetRTTCounter, listeners
+//@   immutable: maxLimit, minLimit, queueSizeFunc, smoothing, rttTolerance, probeInterval, rttNoLoadMeasurement, logger, registry, commonSampler, minRTTSampleListener, minWindowRTTSampleListener, queueSizeSampleListener
+//@   dyntype rttNoLoadMeasurement: *measurements.MinimumMeasurement
+//@   inv[C04] bounds: isFinite(this.estimatedLimit) && float64(this.minLimit) <= this.estimatedLimit && this.estimatedLimit <= this.cap
+//@   inv[C04] cap: isFinite(this.cap) && float64(this.maxLimit) <= this.cap && this.cap <= 1.0e9
+//@   inv cfg: 1 <= this.minLimit && this.minLimit <= this.maxLimit && isFinite(this.smoothing) && 0.0 <= this.smoothing && this.smoothing <= 1.0 && isFinite(this.rttTolerance) && 0.0 <= this.rttTolerance && this.rttTolerance <= 1.0e6 && (this.probeInterval == -1 || (1 <= this.probeInterval && this.probeInterval <= 1<<31))
+//@   inv[C15] counter: this.probeInterval != -1 ==> 1 <= this.resetRTTCounter && this.resetRTTCounter < 2 * this.probeInterval
+//@   inv[C04,C15] baseline: ref(this.rttNoLoadMeasurement) != nil && inv(gradMin(this)) && gradMin(this).value <= 4611686018427387904.0
+//@   inv deps: this.logger != nil && this.minRTTSampleListener != nil && this.minWindowRTTSampleListener != nil && this.queueSizeSampleListener != nil
+
+//@ define gradMin(l *limit.GradientLimit) *measurements.MinimumMeasurement = as(l.rttNoLoadMeasurement, "*measurements.MinimumMeasurement")
+//@ define gradQueue(l *limit.GradientLimit, est float64) int = apply(l.queueSizeFunc, "limit.GradientLimit.queueSizeFunc", int(est))
+
+// Valid configuration: the queue allowance is positive and does not exceed the ceiling.
+//@ func limit.GradientLimit.queueSizeFunc params estimatedLimit
+//@   pure
+//@   ensures[C04,C06,C07] allowance: 1 <= result && result <= max(owner.maxLimit, estimatedLimit)
+
+//@ func nextProbeCountdown
+//@   requires valid: probeInterval == -1 || (1 <= probeInterval && probeInterval <= 1<<31)
+//@   ensures[C15] disabled: probeInterval == -1 ==> result == -1
+//@   ensures[C15] range: probeInterval != -1 ==> probeInterval <= result && result < 2 * probeInterval
+//@   safety[C04]
+//@   assigns nothing
+
+//@ func (*GradientLimit).EstimatedLimit
+//@   maintains[C04] l
+//@   ensures[C04,C16] value: result == int(l.estimatedLimit) && result >= 1 && result >= l.minLimit
+//@   assigns nothing
+//@   safety[C04]
+//@   owns[C17]
+
+//@ func (*GradientLimit).RTTNoLoad
+//@   maintains l
+//@   assigns nothing
+//@   safety[C04]
+//@   owns[C17]
+
+//@ func (*GradientLimit).NotifyOnChange
+//@   ensures[C16] registered: appended(l.listeners, old(l.listeners), consumer)
+//@   ensures[C16] limit_unchanged: l.estimatedLimit == old(l.estimatedLimit)
+//@   assigns l.listeners
+//@   owns[C17]
+
+//@ func (*GradientLimit).notifyListeners
+//@   requires locked: held(l.mu)
+//@   requires fin: isFinite(newLimit) && 0.0 <= newLimit && newLimit <= 1.0e9
+//@   loop 1 invariant[C16] delivered: -1 <= #rangeindex && #rangeindex < len(l.listeners) && (forall j int :: 0 <= j && j <= #rangeindex ==> l.listeners[j].delivered == int(newLimit))
+//@   ensures[C16] all_delivered: allDelivered(l.listeners, int(newLimit))
+//@   assigns all core.LimitChangeListener.delivered
+//@   safety[C04]
+//@   owns[C17]
+
+//@ define gradSlope(l *limit.GradientLimit, rtt int64) float64 = l.rttTolerance * float64(int(gradMin(l).value)) / float64(rtt)
+//@ define gradGradient(l *limit.GradientLimit, rtt int64) float64 = ite(rtt > 0, max(0.5, min(1.0, gradSlope(l, rtt))), 1.0)
+//@ define gradNext(l *limit.GradientLimit, est float64, raw float64) float64 = max(float64(gradQueue(l, est)), min(float64(l.maxLimit), ite(raw < est, max(float64(l.minLimit), est * (1.0 - l.smoothing) + l.smoothing * raw), raw)))
+//@ define gradProbed(l *limit.GradientLimit, counterBefore int) bool = l.probeInterval != -1 && counterBefore - 1 <= 0
+
+//@ func (*GradientLimit).OnSample
+//@   requires sample: 0 <= rtt && rtt <= 4611686018427387904 && 0 <= inFlight && inFlight < 1<<31
+//@   maintains[C04,C06,C07,C15] l
+//@   ensures[C06] drop_never_raises: didDrop ==> l.estimatedLimit <= old(l.estimatedLimit)
+//@   ensures[C06] drop_rule: didDrop && !gradProbed(l, old(l.resetRTTCounter)) ==> l.estimatedLimit == max(float64(gradQueue(l, old(l.estimatedLimit))), min(float64(l.maxLimit), max(float64(l.minLimit), old(l.estimatedLimit) * (1.0 - l.smoothing) + l.smoothing * (old(l.estimatedLimit) / 2.0))))
+//@   ensures[C07] gate: !didDrop && float64(inFlight) < old(l.estimatedLimit) / 2.0 && !gradProbed(l, old(l.resetRTTCounter)) ==> l.estimatedLimit == old(l.estimatedLimit)
+//@   ensures[C07] probe_value: gradProbed(l, old(l.resetRTTCounter)) ==> l.estimatedLimit == max(float64(l.minLimit), float64(gradQueue(l, old(l.estimatedLimit))))
+//@   ensures[C07] growth: !didDrop && float64(inFlight) >= old(l.estimatedLimit) / 2.0 && !gradProbed(l, old(l.resetRTTCounter)) && rtt > 0 && gradSlope(l, rtt) >= 1.0 ==> l.estimatedLimit == max(float64(gradQueue(l, old(l.estimatedLimit))), min(float64(l.maxLimit), old(l.estimatedLimit) + float64(gradQueue(l, old(l.estimatedLimit)))))
+//@   ensures[C07,C15] baseline_at_or_below: !gradProbed(l, old(l.resetRTTCounter)) && rtt > 0 && (old(gradMin(l).value) == 0.0 || float64(rtt) <= old(gradMin(l).value)) ==> gradMin(l).value == float64(rtt)
+//@   ensures[C07,C08] update_rule: !didDrop && float64(inFlight) >= old(l.estimatedLimit) / 2.0 && !gradProbed(l, old(l.resetRTTCounter)) ==> l.estimatedLimit == gradNext(l, old(l.estimatedLimit), old(l.estimatedLimit) * gradGradient(l, rtt) + float64(gradQueue(l, old(l.estimatedLimit))))
+//@   ensures[C15] baseline_bound: gradMin(l).value == 0.0 || gradMin(l).value <= float64(rtt)
+//@   ensures[C15] baseline_observed: gradMin(l).value == float64(rtt) || gradMin(l).value == old(gradMin(l).value) || (gradProbed(l, old(l.resetRTTCounter)) && gradMin(l).value == 0.0)
+//@   ensures[C15] probe_resets_baseline: gradProbed(l, old(l.resetRTTCounter)) ==> gradMin(l).value == 0.0 && l.probeInterval <= l.resetRTTCounter
+//@   ensures[C15] countdown: l.probeInterval != -1 && !gradProbed(l, old(l.resetRTTCounter)) ==> l.resetRTTCounter == old(l.resetRTTCounter) - 1
+//@   ensures[C15] disabled: l.probeInterval == -1 ==> l.resetRTTCounter == old(l.resetRTTCounter)
+//@   ensures[C16] notified: int(l.estimatedLimit) != int(old(l.estimatedLimit)) ==> allDelivered(l.listeners, int(l.estimatedLimit))
+//@   ensures[C16] listeners_kept: l.listeners == old(l.listeners)
+//@   ensures[C20] sampled_once: ncalls("(*core.CommonMetricSampler).Sample") == 1 && callrecv("(*core.CommonMetricSampler).Sample", 0) == l.commonSampler && callarg("(*core.CommonMetricSampler).Sample", 0, 0) == rtt && callarg("(*core.CommonMetricSampler).Sample", 0, 1) == inFlight && callarg("(*core.CommonMetricSampler).Sample", 0, 2) == didDrop
+//@   safety[C04]
+//@   owns[C17]
